@@ -58,7 +58,7 @@ TEXT = {
   "for every function under contract Verus proves absence of overflow/underflow, out-of-bounds slicing/indexing, failed unwrap and failed (debug_)assert; in particular the lexer's and scanner's ActionError::internal sites are proved unreachable and the comment-range arithmetic cannot overflow. Kani adds bit-precise full-domain proofs for the limiter, LocalNameHash::update, NthChild::has_index. Decided only for the functions listed in the evidence. Added units: U-NTH, U-ESCQ, U-DHS, U-TXT, U-TBSV (overflow / bounds / unreachable internal asserts in has_index, the escaper, DenseHashSet::insert, the text decoder loop and the namespace stack).",
   "rest of the crate not covered; termination of state functions not proved (exec_allows_no_decreases_clause); stack depth, linear time not addressed"),
  "C16": ("proof",
-  "the lexer's token-building actions are verified on the real bodies (ranges from token_part_start..pos, comment range arithmetic, attribute push only for start tags, tag token exists wherever it is used); attribute lookup is first-match ASCII case-insensitive (Kani, bounded) The namespace stack behind namespace_uri()/self-closing handling is verified (U-TBSV); attribute reads/edits run against a list model in the bounded attribute mode. Bounded: every string over `aB= \"'/` up to length 6/7 as the inside of a start tag against a reference WHATWG attribute tokenizer; tag-name reads (lower-casing, exact spelling, after set_tag_name, legacy encodings).",
+  "the lexer's token-building actions are verified on the real bodies (ranges from token_part_start..pos, comment range arithmetic, attribute push only for start tags, tag token exists wherever it is used; st_attr: an attribute is under construction exactly in the attribute states of a start tag, so every started attribute is finished before the tag is emitted or parsing is handed over); attribute lookup is first-match ASCII case-insensitive (Kani, bounded) The namespace stack behind namespace_uri()/self-closing handling is verified (U-TBSV); attribute reads/edits run against a list model in the bounded attribute mode. Bounded: every string over `aB= \"'/` up to length 6/7 as the inside of a start tag against a reference WHATWG attribute tokenizer; tag-name reads (lower-casing, exact spelling, after set_tag_name, legacy encodings).",
   "Attributes materialisation, set/remove_attribute and can_have_content not yet under contract; known finding F-C16-1 (namespace_uri of integration-point elements)"),
 }
 
